@@ -278,6 +278,8 @@ def check(run):
                 "non-trivial = the ring wrapped or overflowed, a stream was put back dirty / in fallback state / with unflushed bytes, the peer closed or wrote to a pooled stream, or the session was lost and rebuilt; distinct by op list",
         "samples": [brief(c) for c in cases if c["kind"].startswith("random")][:2],
         "features": feats, "op_mix": opmix, "total_ops": nops,
+        "histories_rerun_after_an_expired_harness_wait": sum(1 for c in cases if c.get("retries")),
+        "expired_waits": [w for c in cases for w in (c.get("expired") or [])][:10],
         "capacities": sorted({c["cap"] for c in cases}),
         "model_switches": {"sw_close_discarded": fx[0], "sw_reset_rejects_unflushed": fx[1]},
         "model_switches_chosen_because": fdesc,
@@ -287,7 +289,7 @@ def check(run):
         "GetStream/PutBack are linearised to atomic labels: push/pop run under the pool mutex and a popped stream is owned exclusively; the flags read afterwards are monotone atomics",
         "callers give back only streams they were given, once (PutBack of a foreign stream is outside the property's quantifier)",
         "writes fit one buffer slice in the model (slice-level behaviour is C06's, slot accounting C09's subject)",
-        "the 30 s circuit-breaker timer is simulated by the harness (store 0 to session.unhealthy); event-loop delivery is waited for up to 10 s per op",
+        "the 30 s circuit-breaker timer is simulated by the harness (store 0 to session.unhealthy); every harness wait polls up to 60 s; a history in which a wait expires is re-run from scratch up to 2 more times and only a wait that expires in all 3 runs is reported, as an oracle failure (C15:awaited-event-never-happens)",
         "buffers of a stream whose session has shut down are never touched by the harness (that faults: unmapped memory, C14)"]
 
     def search():
